@@ -88,6 +88,11 @@ def event_values(k, fraction):
         lat, lon, depth = (-3 - k % 50) * 1e-07, (5 + k % 50) * 1e-05, (1 + k % 9) * 1e-05
     elif k % 7 == 6:
         lat, lon, depth, mag = float(-(k % 80)), float(k % 170), float(k % 600), float(3 + k % 6)
+    elif k % 7 == 1:
+        # longitudes in the 0..360 convention, a negative depth and a negative magnitude (valid values, read back as written)
+        lon, depth, mag = [180.0, 181.5, 200.0, 359.75, 270.125][(k // 7) % 5] + (k // 35) * 0.001, -1.5 - (k // 7) * 0.25, -0.5 - (k // 7) * 0.01
+    if k == 2:
+        lat = lon = depth = mag = 0.0     # ... and all of its numeric fields are zero (a row of zeros is an event, not a placeholder)
     return ('ev%d' % k, ms, lat, lon, depth, mag)
 
 
